@@ -157,6 +157,9 @@ func (e *Encoder) writeObject(data interface{}) (int, error) {
 		e.writeInt(int32(length))
 	}
 	for i := 0; i < vv.NumField(); i++ {
+		if !vv.Field(i).CanInterface() {
+			return 0, newCodecError("writeObject", "field %s of %s is not exported and cannot be encoded", typ.Field(i).Name, typ)
+		}
 		_, err := e.WriteData(vv.Field(i).Interface())
 		if err != nil {
 			return 0, err
